@@ -116,6 +116,16 @@ def _shrink(mod, case, kind, budget_rounds=10, known_keys=()):
 
 
 def run(pid: str, tier: str, seed: int, replay: str | None = None) -> int:
+    """one run of one property's check; two runs of the same property (same tree class) never overlap: they share
+    build/<pid>/ (case shards, assumptions.v)"""
+    import fcntl
+    os.makedirs(os.path.join(fw.BUILD, pid), exist_ok=True)
+    with open(os.path.join(fw.BUILD, pid, ".runlock"), "w") as lf:
+        fcntl.flock(lf, fcntl.LOCK_EX)
+        return _run(pid, tier, seed, replay)
+
+
+def _run(pid: str, tier: str, seed: int, replay: str | None = None) -> int:
     t0 = time.time()
     fw.setup_paths()
     mod = importlib.import_module(f"harness.props.{pid.lower()}")
@@ -273,7 +283,7 @@ def run(pid: str, tier: str, seed: int, replay: str | None = None) -> int:
         k = (kind, key)
         if k not in by_key or (i is not None and by_key[k][0] is not None and _size(cases[i]) < _size(cases[by_key[k][0]])):
             by_key[k] = (i, kind, key, suffix)
-    os.makedirs(os.path.join(fw.VERIF, "replays"), exist_ok=True)
+    os.makedirs(fw.REPLAYS, exist_ok=True)
     for n, (i, kind, key, suffix) in enumerate(list(by_key.values())[:5]):
         case = cases[i] if i is not None else None
         if case is not None and kind in ("spec", "corr") and ok_run and not replay:
@@ -302,7 +312,7 @@ def run(pid: str, tier: str, seed: int, replay: str | None = None) -> int:
                 rp["description"] = mod.describe(case, out)
             except Exception:
                 pass
-        path = os.path.join(fw.VERIF, "replays", f"{pid}-{seed}-{n}.json")
+        path = os.path.join(fw.REPLAYS, f"{pid}-{seed}-{tier}-{n}.json")
         fw.write_json(path, rp)
         printed.append(f"VIOLATION property={pid} replay={path}{suffix}")
 
